@@ -21,8 +21,9 @@ import LemoModel.Evm
 import LemoModel.EvmTable
 import LemoProofs.Lemmas.EvmShape
 import LemoProofs.Lemmas.EvmJournal
+import LemoProofs.Lemmas.EvmStatic
 namespace LemoProofs.C16
-open LemoModel LemoModel.Evm LemoProofs.EvmShape LemoProofs.EvmJournal
+open LemoModel LemoModel.Evm LemoProofs.EvmShape LemoProofs.EvmJournal LemoProofs.EvmStatic
 
 /-! ### the regenerated jump table satisfies the premises -/
 
@@ -418,15 +419,64 @@ theorem revert_step_keeps_gas (T : Table) (m : Machine) (c : Choice) (f : Frame)
 
 /-! ### read-only calls -/
 
-/-- **static_no_write (instruction level)**: under readOnly the interpreter lets no state-writing
-    instruction (SSTORE, LOG*, CREATE, SELFDESTRUCT) and no CALL with value reach its gas stage, let
-    alone `execute` -/
-theorem static_no_write_partial (T : Table) (gas : Nat) (c : Choice) (r : Nat × Nat)
+theorem table_guardPre : EvmTable.table.params.guardPre = true := by decide
+
+/-- the precompiles the code declares state-modifying are installed precompiles (today: 0x09 only) -/
+theorem table_writingPre : ∀ a ∈ EvmTable.table.params.writingPre, a ∈ EvmTable.precompiles := by decide
+
+/-- instruction level: under readOnly the interpreter lets no state-writing instruction (SSTORE,
+    LOG*, CREATE, SELFDESTRUCT) and no CALL with value reach its gas stage, let alone `execute` -/
+theorem static_blocks_writing_instructions (T : Table) (gas : Nat) (c : Choice) (r : Nat × Nat)
     (h : pre T true gas c = .ok r) :
     (T.info c.op).writes = false ∧ ¬ (c.op = T.params.opCall ∧ c.value = true) :=
   (pre_ok_valid T true gas c r h).2.2.2 rfl
 
-/-- …and a plain instruction executed under readOnly leaves the journal untouched unless it ends the frame -/
+/-- the readOnly invariant (`ROInv`: the flag is on exactly while the StaticCall frame that set it is
+    live; no CREATE frame above it) holds at every point of every execution started from outside -/
+theorem roInv_reachable (T : Table) (hcw : (T.info T.params.opCreate).writes = true) (o : Nat → Choice)
+    (k : Kind) (gas : Nat) (value canT : Bool) (callee : Callee) (n : Nat) :
+    ROInv (iter T o n 0 (begin T k gas value canT callee)).readOnly (iter T o n 0 (begin T k gas value canT callee)).frames := by
+  have key : ∀ n i m, ROInv m.readOnly m.frames → ROInv (iter T o n i m).readOnly (iter T o n i m).frames := by
+    intro n
+    induction n with
+    | zero => intro i m h; exact h
+    | succ n ih =>
+      intro i m h
+      unfold iter
+      split
+      · exact h
+      · exact ih _ _ (step_roInv T hcw m (o i) h)
+  exact key n 0 _ (begin_roInv T k gas value canT callee)
+
+/-- **static_no_write** (full statement, current code): in a machine satisfying the readOnly
+    invariant, a step made under readOnly — whatever the opcode, whatever the callee, precompiles
+    included — leaves a journal that is a truncation of the old one (a revert) followed only by
+    *benign* entries: the two balance logs of a transfer of **zero** (`evm.Call` runs
+    `evm.Transfer` unconditionally) and the platform's TopicRunFail event. No instruction write,
+    no precompile write, no value transfer, no code deposit, no creation event.
+    Premises: the guard of fix a881098 is in the code (`guardPre`) and CREATE is flagged `writes`
+    in the jump table — both decided on the regenerated table (`static_no_write_live`). -/
+theorem static_no_write (T : Table) (hg : T.params.guardPre = true) (hcw : (T.info T.params.opCreate).writes = true)
+    (m : Machine) (c : Choice) (hinv : ROInv m.readOnly m.frames) (hro : m.readOnly = true) :
+    BenExt m.journal (step T m c).journal := by
+  cases hm : m.frames with
+  | nil =>
+    have : step T m c = m := by unfold step; rw [hm]
+    rw [this]; exact benExt_refl _
+  | cons f rest =>
+    rw [hm, hro] at hinv
+    exact step_benExt T hg hcw m c f rest hm hro (roInv_top hinv)
+
+/-- the same on the live table, at every reachable point of every execution: no guard left -/
+theorem static_no_write_live (o : Nat → Choice) (k : Kind) (gas : Nat) (value canT : Bool) (callee : Callee)
+    (n : Nat) (c : Choice)
+    (hro : (iter EvmTable.table o n 0 (begin EvmTable.table k gas value canT callee)).readOnly = true) :
+    BenExt (iter EvmTable.table o n 0 (begin EvmTable.table k gas value canT callee)).journal
+      (step EvmTable.table (iter EvmTable.table o n 0 (begin EvmTable.table k gas value canT callee)) c).journal :=
+  static_no_write EvmTable.table table_guardPre table_create_writes _ c
+    (roInv_reachable EvmTable.table table_create_writes o k gas value canT callee n) hro
+
+/-- a plain instruction executed under readOnly leaves the journal untouched unless it ends the frame -/
 theorem static_plain_step_journal (T : Table) (m : Machine) (c : Choice) (f : Frame) (rest : List Frame) (g child : Nat)
     (hm : m.frames = f :: rest) (hro : m.readOnly = true) (hp : pre T m.readOnly f.gas c = .ok (g, child))
     (hk : T.kindOf c.op = none) (hx : c.execErr = false)
@@ -434,7 +484,7 @@ theorem static_plain_step_journal (T : Table) (m : Machine) (c : Choice) (f : Fr
     (step T m c).journal = m.journal := by
   have hw : (T.info c.op).writes = false := by
     rw [hro] at hp
-    exact (static_no_write_partial T f.gas c _ hp).1
+    exact (static_blocks_writing_instructions T f.gas c _ hp).1
   unfold step
   rw [hm]
   simp only [hp, hk, hx, hr, hh, hw, Bool.false_eq_true, if_false]
@@ -448,20 +498,33 @@ theorem enter_keeps_readOnly (P : Params) (m : Machine) (k : Kind) (gas : Nat) (
   simp only [hro]
   repeat (first | split | rfl | simp)
 
-set_option maxRecDepth 100000 in
-/-- **refutation of the full `static_no_write`** ("a read-only call changes nothing"): the
-    interpreter's readOnly flag does not protect against the state-writing reward precompile
-    (address 0x09, `setRewardValue.Run` calls `SetStorageState`): a STATICCALL to it, made inside
-    a static context, appends a write to the journal. -/
-theorem static_write_refuted :
-    ∃ (m : Machine) (c : Choice), m.readOnly = true ∧ Entry.write ∉ m.journal ∧
-      Entry.write ∈ (step EvmTable.table m c).journal :=
-  ⟨begin EvmTable.table .staticCall 100000 false true .code,
-   { op := 250, stackLen := 6, reqGas := 50000, callee := .pre 0 true 1 }, by decide, by decide, by decide⟩
+/-- the model of the code before fix a881098: `RunPrecompiledContract` without the readOnly guard -/
+def legacyTable : Table :=
+  { EvmTable.table with params := { EvmTable.table.params with guardPre := false } }
 
 set_option maxRecDepth 100000 in
-/-- second deviation: a CALL with **zero** value made inside a static context still executes
-    `evm.Transfer`, which pushes two (no-op) balance change logs -/
+/-- **refutation, code before fix a881098** ("a read-only call changes nothing" was false): the
+    interpreter's readOnly flag did not protect against the state-writing reward precompile
+    (address 0x09, `setRewardValue.Run` calls `SetStorageState`): a STATICCALL to it, made inside
+    a static context, appended a write to the journal. -/
+theorem static_write_refuted :
+    ∃ (m : Machine) (c : Choice), m.readOnly = true ∧ Entry.write ∉ m.journal ∧
+      Entry.write ∈ (step legacyTable m c).journal :=
+  ⟨begin legacyTable .staticCall 100000 false true .code,
+   { op := 250, stackLen := 6, reqGas := 50000, callee := .pre 9 0 true 1 }, by decide, by decide, by decide⟩
+
+set_option maxRecDepth 100000 in
+/-- the same step on the current code: the precompile is refused (write protection), nothing is
+    journaled, the gas handed to it is consumed -/
+theorem static_reward_precompile_refused :
+    let m := begin EvmTable.table .staticCall 100000 false true .code
+    let m' := step EvmTable.table m { op := 250, stackLen := 6, reqGas := 50000, callee := .pre 9 0 true 1 }
+    m.readOnly = true ∧ m'.journal = [] ∧ (m'.frames.map (·.gas)) = [100000 - 700 - 50000] := by
+  decide
+
+set_option maxRecDepth 100000 in
+/-- remaining deviation (benign, allowed by `static_no_write`): a CALL with **zero** value made
+    inside a static context still executes `evm.Transfer`, which pushes two no-op balance logs -/
 theorem static_zero_transfer_journaled :
     ∃ (m : Machine) (c : Choice), m.readOnly = true ∧ m.journal = [] ∧
       (step EvmTable.table m c).journal = [.transfer false, .transfer false] :=
